@@ -109,8 +109,8 @@ CLAIMS = {
 }
 
 # non-listed growth checks (./check growth): never reported under a listed property id
-GROWTH = dict(scen=[("hooked", "compact", True), ("core", "conv", True), ("hooked", "candidates", True)], mc={"quick": [], "thorough": []},
-              invariants="G01 bit container = bit-sequence model; G02 ranking score = documented penalty; G03 colour / shape conversions; G04 Module API, QRCode::default")
+GROWTH = dict(scen=[("hooked", "compact", True), ("core", "conv", True), ("hooked", "candidates", True), ("core", "raster", True)], mc={"quick": [], "thorough": []},
+              invariants="G01 bit container = bit-sequence model; G02 ranking score = documented penalty; G03 colour / shape conversions; G04 Module API, QRCode::default; G06 ImageBuilder forwards the embedded-image options")
 
 
 def load_known():
